@@ -71,7 +71,7 @@ impl<'a> DeserializationContext<'a> {
         let resolved_region = ResolvedInputRegion {
             start: self.current.start + region.start,
             pos: region.pos,
-            end: self.current.start + region.end,
+            end: region.end - region.start,
             delta: self.current.start,
         };
         self.region_stack.push(self.current);
@@ -485,7 +485,7 @@ impl ResolvedInputRegion {
         InputRegion {
             start: self.start - self.delta,
             pos: self.pos,
-            end: self.end - self.delta,
+            end: self.start - self.delta + self.end,
         }
     }
 }
